@@ -51,6 +51,20 @@ PROPS["C02"] = {
     "assumptions": ["crash = process death, no lost or reordered completed writes", "flush timer ticks only between statements (C13 checks that separately)"],
 }
 
+PROPS["C03"] = {
+    "kind": "harness", "test": "TestC03", "level": "fault_enumeration", "journal": True,
+    "tiers": tiers(60, 4, 500, 16),
+    "rule": "rapid-generated histories (3-18 valid statements, generated flushes) in which 1-3 multi-row INSERT/UPDATE/DELETE statements are victims; the verif hook fires before "
+            "EVERY write and fsync the victim issues on the log, and at each such point two crash images are taken (log as written so far; log cut at the last fsync); every image is "
+            "recovered with the real InitStorage and must equal the model state before the victim plus the first r row operations for some r in 0..n (other tables untouched, catalog intact), "
+            "then 1-3 follow-up multi-row inserts run on the recovered files and are compared with the model continued from that prefix. "
+            "Non-trivial: a victim with >=3 row operations whose images recovered to at least two different prefixes r (e.g. r=0 before the log write and r=n after the write but before its fsync; proper prefixes 0<r<n are labelled separately); distinct by case JSON.",
+    "technique": "fault injection at every log write/fsync call of generated victim statements (rapid + build-tag hook), prefix-state oracle from a reference model",
+    "level_text": "All log-write crash points of each generated victim statement are enumerated (exhaustive per statement, both tail-cut variants) and recovered with the real code; histories and victims are random.",
+    "level_note": "Crash = process death at a write-call boundary (the property's own granularity); a torn individual write() is not generated. Trusted: reference model with prefix semantics, hook placement (before each Write/Sync in wal.flush).",
+    "assumptions": ["a single write(2) on the log is atomic with respect to process death"],
+}
+
 HOOK_COMMITS = ["7ca683e"]
 
 NOT_APPLICABLE = {}
